@@ -33,6 +33,11 @@ FPredictable ==
   \A i \in 1..Len(T.frows) :
      IsPrefixOfT(T.fprefix \o UnCamel(T.frows[i].name_cp), T.frows[i].fname_cp)
 
+\* a generic interface is named like its functions: scope + underscore name (docs/reference.rst F_name_generic)
+GenericNamed ==
+  "gprefix" \in DOMAIN T =>
+     \A g \in 1..Len(T.generics) : T.generics[g].gname_cp = T.gprefix \o UnCamel(T.generics[g].name_cp)
+
 \* scopes whose fortran_generic entries change the rank of an argument get one more C entry point per such
 \* entry (same C parameter types): the signature-level clauses do not apply, the name-level clauses do
 Relaxed == "relaxed" \in DOMAIN T /\ T.relaxed
@@ -60,6 +65,7 @@ Verdict ==
   ELSE IF ~GenericsOK THEN <<"REJECT", "generic interface does not list exactly the specifics of its name">>
   ELSE IF ~Predictable THEN <<"REJECT", "C name does not follow prefix + scope + underscore name">>
   ELSE IF ~FPredictable THEN <<"REJECT", "Fortran name does not follow scope + underscore name">>
+  ELSE IF ~GenericNamed THEN <<"REJECT", "generic interface is not named scope + underscore name">>
   ELSE IF ~Inj(T.py) THEN <<"REJECT", "Python method table has a duplicate entry">>
   ELSE IF ~Relaxed /\ T.py # <<>> /\ SetOf(T.py) # ExpectedPy THEN
        <<"REJECT", "Python method table does not list the documented names", SetOf(T.py), ExpectedPy>>
